@@ -295,3 +295,83 @@ Section Sse2Proofs.
     intros Hab Hb HL buf Hlen Hrows. apply sse2_kernel_ok; auto.
   Qed.
 End Sse2Proofs.
+
+(* ---------- the dispatcher ---------- *)
+
+Lemma rows_update_ok_or_panic {T} (f : nat -> list T -> res (list T)) :
+  (forall i old, ok_or_panic (f i old)) ->
+  forall idx k buf, ok_or_panic (rows_update f k idx buf).
+Proof.
+  intros Hf. induction idx as [|i rest IH]; intros k buf; simpl; auto.
+  destruct (nth_error buf k) as [old|]; simpl; auto.
+  pose proof (Hf i old) as H. destruct (f i old); simpl in *; auto.
+Qed.
+
+Lemma generic_rows_into_ok_or_panic {T} (add : T -> T -> T) zero C pssm q a b old :
+  ok_or_panic (generic_rows_into add zero C pssm q a b old).
+Proof.
+  unfold generic_rows_into. destruct (_ || _); simpl; auto.
+  pose proof (rows_update_ok_or_panic (fun i (_ : list T) => gen_row add zero C pssm (sq_mat q) i)
+                (fun i _ => gen_row_ok_or_panic add zero C pssm (sq_mat q) i)
+                (seq a (b - a)) 0 (m_resize (repeat zero C) (sc_mat old) (b - a))) as H.
+  destruct (rows_update _ _ _ _); simpl in *; auto.
+Qed.
+
+Lemma res_equiv_refl {A} (x : res A) : ok_or_panic x -> res_equiv x x.
+Proof. destruct x; simpl; auto. Qed.
+
+Lemma res_equiv_ok {A} (x : res A) v : res_equiv x (Ok v) -> x = Ok v.
+Proof. destruct x; simpl; intros H; try contradiction. subst. reflexivity. Qed.
+
+Lemma res_equiv_eq_ok {A} (x y : res A) v : res_equiv x y -> y = Ok v -> x = Ok v.
+Proof. intros H E. subst y. apply res_equiv_ok. exact H. Qed.
+
+Lemma res_equiv_panic {A} (x y : res A) : res_equiv x y -> is_panic y = true -> is_panic x = true.
+Proof. destruct x, y; simpl; intros H E; try contradiction; try discriminate; auto. Qed.
+
+Section DispatchProofs.
+  Context {T : Type}.
+  Variable add : T -> T -> T.
+  Variable zero : T.
+  Variable K : nat.
+  Variable P : T -> Prop.
+  Hypothesis P_zero : P zero.
+  Hypothesis P_add : forall x y, P x -> P (add x y).
+  Hypothesis add_zero : forall x, P x -> add x zero = x.
+
+  (* whatever kernel the table selects for an arm, the result is that of the generic kernel *)
+  Theorem dispatch_equiv (table : arm -> kernel_id) csp csg pssm pads ar q a b old :
+    avx2_layout_ok csp = true -> avx2_layout_ok csg = true ->
+    mat_wf 32 K (sq_mat q) -> pssm_wf K pssm -> sc_wf 32 old ->
+    1 <= length pssm -> length pssm - 1 <= sq_wrap q ->
+    res_equiv (dispatch_rows_into add zero table csp csg K pssm pads ar q a b old)
+              (generic_rows_into add zero 32 pssm q a b old).
+  Proof.
+    intros Hcp Hcg Hm Hp Hw HM Hwrap. unfold dispatch_rows_into.
+    destruct (table ar).
+    - apply res_equiv_refl. apply generic_rows_into_ok_or_panic.
+    - apply (sse2_equiv add zero 32 K P); auto. lia.
+    - apply avx2_equiv; auto.
+  Qed.
+End DispatchProofs.
+
+(* full scans: Score::score through any score_rows_into *)
+Lemma score_with_equiv {T} (f g : sseq -> nat -> nat -> sscores T -> res (sscores T)) q :
+  (forall a b, res_equiv (f q a b sc_empty) (g q a b sc_empty)) ->
+  res_equiv (score_with f q) (score_with g q).
+Proof.
+  intros H. unfold score_with, score_into, seq_rows. destruct (_ <? _); simpl; auto.
+Qed.
+
+Lemma score_with_eq_generic {T} (add : T -> T -> T) zero C
+      (f : sseq -> nat -> nat -> sscores T -> res (sscores T)) pssm q sc :
+  (forall a b, res_equiv (f q a b sc_empty) (generic_rows_into add zero C pssm q a b sc_empty)) ->
+  generic_score add zero C pssm q = Ok sc ->
+  score_with f q = Ok sc.
+Proof.
+  intros H E. apply res_equiv_ok. rewrite <- E. unfold generic_score.
+  apply score_with_equiv. exact H.
+Qed.
+
+Lemma sc_wf_empty {T} C : sc_wf C (@sc_empty T).
+Proof. intros r Hr. simpl in Hr. lia. Qed.
